@@ -355,16 +355,17 @@ fn op_line(cfg: &Cfg, segs: &[Vec<u8>]) -> String {
 
 // ---------------------------------------------------------------- generators
 
-const KEYS: [&[u8]; 4] = [b"k", b"key:2", b"a-longer-key-name-0123456789", b"\r\n"];
+const KEYS: [&[u8]; 6] = [b"k", b"key:2", b"a-longer-key-name-0123456789", b"\r\n", b"", b"*3\r\n$3\r\nSET\r\n"];
 
 fn value(rng: &mut Rng) -> Vec<u8> {
-    match rng.below(7) {
+    match rng.below(8) {
         0 => vec![],
         1 => b"v".to_vec(),
         2 => b"with\r\ncrlf".to_vec(),
         3 => vec![0, 255, 36, 42],
         4 => vec![b'x'; rng.range(40, 90) as usize],
         5 => b"$3\r\nGET\r\n".to_vec(),
+        6 if rng.chance(1, 6) => vec![b'B'; *rng.pick(&[8191usize, 8192, 8193, 20_000])], // around / above read_buffer_size
         _ => (0..rng.range(1, 12)).map(|_| rng.below(256) as u8).collect(),
     }
 }
@@ -438,18 +439,19 @@ fn segmentation(rng: &mut Rng, stream: &[u8], boundaries: &[usize]) -> Vec<Vec<u
 /// a legal configuration (PerformanceConfig::validate): read_size >= 1, max_size >= read_size —
 /// including max_size == read_size, read_size + 1 and small multiples of tiny reads
 fn config(rng: &mut Rng) -> Cfg {
-    let read_size = *rng.pick(&[8192usize, 8192, 8192, 64, 64, 16, 7]);
-    let max_buffer = match rng.below(8) {
+    let read_size = *rng.pick(&[8192usize, 8192, 8192, 64, 64, 16, 7, 1, 65536]);
+    let max_buffer = match rng.below(9) {
         0 => read_size,
         1 => read_size + 1,
         2 => 2 * read_size,
         3 => 3 * read_size + 5,
         4 if read_size < 8192 => 8192,
-        _ => 1_000_000,
+        5 => usize::MAX,
+        _ => 1_000_000.max(read_size),
     };
     Cfg {
-        min_pipeline: *rng.pick(&[0usize, 60, 60, 70, 1 << 40]),
-        batch_threshold: *rng.pick(&[1usize, 2, 2, 6]),
+        min_pipeline: *rng.pick(&[0usize, 1, 60, 60, 70, 1 << 40, usize::MAX]),
+        batch_threshold: *rng.pick(&[0usize, 1, 2, 2, 6, usize::MAX]),
         read_size,
         max_buffer,
     }
@@ -1709,6 +1711,106 @@ fn deep_corpus(cx: &mut Cx) {
     }
 }
 
+/// correspondence only: the real handler vs the model on the same configuration and segments
+fn corr_only(cx: &mut Cx, cfg: &Cfg, segs: &[Vec<u8>], label: &str) {
+    let r = cx.runner.run(cfg, segs);
+    let (line, _) = line_of(&r);
+    cx.out.op(op_line(cfg, segs), line);
+    cx.out.count(label);
+    cx.out.case(&op_line(cfg, segs), true);
+}
+
+/// comparisons of the modelled code at equality, computed from the case (class 3), and the
+/// recognisers' overflow branches (class 5)
+fn boundary_corpus(cx: &mut Cx) {
+    let ping = frame(&[b"PING"]);
+    // (1) `count >= batch_threshold` with k look-alikes, threshold k-1 / k / k+1, and the gate
+    //     `buffer.len() >= min_pipeline_buffer` at len-1 / len / len+1
+    for set in [false, true] {
+        for k in 1..=4usize {
+            let mut stream = Vec::new();
+            for i in 0..k {
+                if set {
+                    stream.extend_from_slice(format!("*3\r\n$3\r\nSET\r\nX$1\r\n{}\r\n$2\r\nv{}\r\n", i, i).as_bytes());
+                } else {
+                    stream.extend_from_slice(format!("*2\r\n$3\r\nGET\r\nX$1\r\n{}\r\n", i).as_bytes());
+                }
+            }
+            stream.extend_from_slice(&ping);
+            stream.extend_from_slice(&ping);
+            let n = stream.len();
+            for thr in [k.saturating_sub(1), k, k + 1] {
+                for mp in [0usize, n - 1, n, n + 1] {
+                    let cfg = Cfg { min_pipeline: mp, batch_threshold: thr, read_size: 8192, max_buffer: 1_000_000 };
+                    corr_only(cx, &cfg, &[stream.clone()], "boundary:lookalikes-vs-threshold-and-gate");
+                }
+            }
+            // GET look-alikes followed by SET look-alikes: the second gate `buffer.len() >= min_pipeline` after the GETs
+            if !set {
+                let mut both = stream[..n - 2 * ping.len()].to_vec();
+                let after_gets = both.len();
+                both.extend_from_slice(b"*3\r\n$3\r\nSET\r\nX$1\r\nk\r\n$1\r\nv\r\n");
+                both.extend_from_slice(&ping);
+                let rem = both.len() - after_gets;
+                for mp in [rem - 1, rem, rem + 1] {
+                    let cfg = Cfg { min_pipeline: mp, batch_threshold: 1, read_size: 8192, max_buffer: 1_000_000 };
+                    corr_only(cx, &cfg, &[both.clone()], "boundary:second-gate-after-gets");
+                }
+            }
+        }
+    }
+    // (2) the gate on well-formed pipelines: min_pipeline_buffer = stream length - 1 / = / + 1
+    let cmds: Vec<Vec<Vec<u8>>> = vec![vec![b"GET".to_vec(), b"k".to_vec()], vec![b"SET".to_vec(), b"k".to_vec(), b"v".to_vec()], vec![b"GET".to_vec(), b"k".to_vec()]];
+    let stream: Vec<u8> = cmd_frames(&cmds).concat();
+    for mp in [stream.len() - 1, stream.len(), stream.len() + 1] {
+        for thr in [0usize, 1, 2, 3] {
+            let cfg = Cfg { min_pipeline: mp, batch_threshold: thr, read_size: 8192, max_buffer: 1_000_000 };
+            check_wellformed(cx, &cfg, &cmds, &[stream.clone()], "boundary:gate-at-stream-length");
+        }
+    }
+    // (3) `buf.len() < 12` / `< HEADER_LEN + 1` / `< total_needed` / `<= val_len_start`: every
+    //     look-alike of the corpus cut at EVERY byte
+    for bad in [&b"*2\r\n$3\r\nGET\r\nX$1\r\nk\r\n"[..], b"*3\r\n$3\r\nSET\r\nX$1\r\nk\r\n$1\r\nv\r\n", b"*2\r\n$3\r\nget\r\n\r$02\r\nkk\r\n", b"*3\r\n$3\r\nset\r\nX$0\r\n\r\n$0\r\n\r\n"] {
+        for c in 1..bad.len() {
+            for mp in [0usize, 60] {
+                let cfg = Cfg { min_pipeline: mp, batch_threshold: 1, read_size: 8192, max_buffer: 1_000_000 };
+                corr_only(cx, &cfg, &cut(bad, &[c]), "boundary:lookalike-cut-at-every-byte");
+            }
+        }
+    }
+    // (4) the recognisers' checked_add branches: a declared length at which key_start + key_len, key_end + 2,
+    //     val_start + val_len (+ 2) leave usize — on the fast path and in the collectors (gate open at 0)
+    let max = usize::MAX;
+    let mut frames: Vec<(Vec<u8>, &'static str)> = Vec::new();
+    for len in [max, max - 1, max - 36, max - 37, max - 38, max - 39, max - 40, 1usize << 63, (1usize << 63) - 1] {
+        frames.push((format!("*2\r\n$3\r\nGET\r\nX${}\r\nab", len).into_bytes(), "huge-key-length"));
+        frames.push((format!("*3\r\n$3\r\nSET\r\nX${}\r\nab", len).into_bytes(), "huge-key-length"));
+        frames.push((format!("*3\r\n$3\r\nSET\r\nX$1\r\nk\r\n${}\r\nab", len).into_bytes(), "huge-value-length"));
+        frames.push((format!("*3\r\n$3\r\nSET\r\nX$1\r\nk\r\n${}\r\nab", len.wrapping_sub(28)).into_bytes(), "huge-value-length"));
+    }
+    for (bad, hint) in &frames {
+        for mp in [0usize, 60] {
+            let cfg = Cfg { min_pipeline: mp, batch_threshold: 1, read_size: 8192, max_buffer: 1_000_000 };
+            check_malformed(cx, &cfg, &[], bad, hint, &[], &[bad.clone()], "boundary:length-overflow");
+            let mut s = ping.clone();
+            s.extend_from_slice(bad);
+            check_malformed(cx, &cfg, &[vec![b"PING".to_vec()]], bad, hint, &[], &[ping.clone(), bad.clone()], "boundary:length-overflow");
+        }
+    }
+    // (5) after a protocol error the handler clears its buffer and goes on reading: commands in LATER
+    //     reads are answered, commands behind the malformed frame in the SAME read are swallowed
+    for bad in [&b"?what\r\n"[..], b"*x\r\n", b"$-2\r\n", b"*1\r\n:x\r\n", b"*2\r\n$3\r\nGET\r\n$x\r\nk\r\n"] {
+        let set = frame(&[b"SET", b"k", b"v"]);
+        let get = frame(&[b"GET", b"k"]);
+        let d = Cfg::default_like();
+        corr_only(cx, &d, &[ping.clone(), bad.to_vec(), set.clone(), get.clone()], "history:after-protocol-error:later-reads");
+        corr_only(cx, &d, &[[&ping[..], bad, &set[..]].concat(), get.clone()], "history:after-protocol-error:same-read-swallowed");
+        corr_only(cx, &d, &[[&ping[..], bad].concat(), [bad, &set[..]].concat(), [&get[..], bad, &get[..]].concat(), get.clone()], "history:after-protocol-error:repeated");
+        let small = Cfg { min_pipeline: 0, batch_threshold: 1, read_size: 7, max_buffer: 1_000_000 };
+        corr_only(cx, &small, &[ping.clone(), bad.to_vec(), set.clone(), get.clone()], "history:after-protocol-error:reads-of-7");
+    }
+}
+
 fn fixed_corpus(cx: &mut Cx) {
     let d = Cfg::default_like();
     let ping = frame(&[b"PING"]);
@@ -1759,6 +1861,7 @@ fn run_inner(a: &Args) {
     let mut rng = Rng::new(a.seed);
     fixed_corpus(&mut cx);
     deep_corpus(&mut cx);
+    boundary_corpus(&mut cx);
     overflow_corpus(&mut cx);
     pooled_corpus(&mut cx);
     write_corpus(&mut cx);
